@@ -20,7 +20,7 @@
 
    Limiter tokens of the per-client limiter and the inline/replay hand-off are compared
    differentially only; see props/C05/NOTES.md. *)
-From Sdns Require Import Common.Base Common.GoList Gen.C05 C05.Model C05.Proofs C05.Proofs_libfuel C05.Ladder C05.Proofs_ladder C05.Edns C05.Proofs_edns C05.Proofs_gen3 C05.Proofs_loops C05.Chase C05.Proofs_chase C05.Proofs_inline.
+From Sdns Require Import Common.Base Common.GoList Gen.C05 C05.Model C05.Proofs C05.Proofs_libfuel C05.Ladder C05.Proofs_ladder C05.Edns C05.Proofs_edns C05.Proofs_gen3 C05.Proofs_loops C05.Chase C05.Proofs_chase C05.Proofs_inline C05.Verdict C05.Proofs_verdict.
 Open Scope N_scope.
 
 (* the strict admission never accepts what the library rejects, and reads the same facts *)
@@ -265,3 +265,37 @@ Theorem inline_replay_one_charge :
 Proof. exact inline_replay_refines. Qed.
 Print Assumptions inline_replay_one_charge.
 
+
+(* THE ADMISSION-TIME SERVING VERDICT AND THE DO CLASS OF AN EXACT HIT (session 4).  Byte path: prepareWireServe's
+   flags, prepareStripped's DO=0 body (dnsutil.ClearDNSSEC packed at admission, kept only when servable and
+   free of DNSSEC records), wireBodyFor, wireInfoFor's HasDNSSEC and the edns writer's commit-time diversion,
+   in serveHitFromWire's order (Verdict.wire_exact).  Decoded path: ToMsg of the FULL stored body, additionalAnswer
+   (Chase.additional), edns.ResponseWriter.WriteMsg's ClearDNSSEC for a client without DO.  For every body
+   (any record types in any section), question type, DO bit, CD, sub-query behaviour: whenever the byte path
+   serves an exact entry, the decoded chase leaves ToMsg's message alone and the body the byte path copied is
+   the full body after the edns writer's DNSSEC step - the same rcode, answer, authority and additional
+   records in the same order.  Premise: no alias record of the answer points (under folding) at the question
+   (ex_self_alias_needed: necessary; admission refuses that shape for the spelling it is admitted under). *)
+Theorem wire_verdict_eq_msg :
+  forall (name : Type) (fold : name -> name) (name_eqb : name -> name -> bool),
+  (forall a b, name_eqb a b = true <-> a = b) ->
+  forall (qtype : N) (cd : bool) (ns_dup : rrec name -> rrec name -> bool) (sub : name -> mres name)
+         (qname : name) (ttl : N) (b r : vbody name) (do : bool),
+  no_self_alias name fold name_eqb qname (vb_an name b) = true ->
+  wire_exact name (admission name qtype b) do = WServe name r ->
+  additional name fold name_eqb qtype ns_dup sub qname (to_msg name cd (centry_of name qname ttl b))
+    = to_msg name cd (centry_of name qname ttl b)
+  /\ r = edns_write_msg name qtype do b.
+Proof. exact wire_verdict_eq_msg_lemma. Qed.
+Print Assumptions wire_verdict_eq_msg.
+
+(* a client without DO is never shown an RRSIG / NSEC / NSEC3 record in answer or authority by the byte path
+   unless it asked for RRSIG - whatever the entry holds and whatever type was asked (NSEC and NSEC3 questions
+   included: both paths strip their payload) *)
+Theorem wire_exact_nodo_has_no_dnssec :
+  forall (name : Type) (qtype : N) (b r : vbody name),
+  (qtype =? TypeRRSIG) = false ->
+  wire_exact name (admission name qtype b) false = WServe name r ->
+  existsb (rec_dnssec name) (vb_an name r ++ vb_ns name r) = false.
+Proof. exact wire_exact_nodo_clean. Qed.
+Print Assumptions wire_exact_nodo_has_no_dnssec.
